@@ -583,9 +583,11 @@ func (conn *Tunnel) serve() {
 	util.Log(conn, "Started worker")
 	defer util.Log(conn, "Worker exited")
 
+	// Deferred calls run last-in-first-out: Close waits for Done, so the channels have to be
+	// closed before it.
+	defer conn.wait.Done()
 	defer close(conn.ack)
 	defer close(conn.inbound)
-	defer conn.wait.Done()
 
 	for {
 		err := conn.process()
